@@ -273,8 +273,7 @@ theorem extractors_agree (s : K8sState) (pre x y : Str) :
 
 /-! ### handler + processor -/
 
-theorem updateFails_noChange (plus : Bool) (o : Outcome) : updateFails plus .noChange o = false := by
-  cases o <;> rfl
+theorem updateFails_noChange (plus prevErr : Bool) (o : Outcome) : updateFails plus prevErr .noChange o = false := rfl
 
 /-- invariant: the stored configuration is the one built from the stored graph, with the current version -/
 def SnapshotInv (st : HState) : Prop := st.conf = st.graph.map fun g => buildConf g st.version
